@@ -1,11 +1,43 @@
 # -*- coding: utf-8 -*-
 
-from typing import Any, Dict, List, Optional
+from typing import Any, Dict, List, Mapping, Optional, Sequence
 
 from ..exc import ValidationError
-from ..lang.ast import Document, Field, OperationDefinition
+from ..lang.ast import (
+    Document,
+    FragmentDefinition,
+    OperationDefinition,
+    Selection,
+)
 from ..schema import Schema
-from .collect_fields import selected_fields
+from .collect_fields import collect_fields_untyped
+
+
+def _selections_depth(
+    selections: Sequence[Selection],
+    fragments: Mapping[str, FragmentDefinition],
+    variables: Mapping[str, Any],
+) -> int:
+    """
+    Depth of a list of selections: 0 if it only selects leaf fields, otherwise
+    1 + the depth of the deepest (merged) sub selection. Fragments are
+    traversed at any level and all the nodes sharing a response name count.
+    """
+    depth = 0
+    collected = collect_fields_untyped(selections, fragments, variables)
+    for nodes in collected.values():
+        sub_selections = [
+            selection
+            for node in nodes
+            if node.selection_set is not None
+            for selection in node.selection_set.selections
+        ]
+        if sub_selections:
+            depth = max(
+                depth,
+                1 + _selections_depth(sub_selections, fragments, variables),
+            )
+    return depth
 
 
 class MaxDepthValidationRule:
@@ -72,16 +104,9 @@ class MaxDepthValidationRule:
             ):
                 continue
 
-            paths = (
-                p
-                for f in op.selection_set.selections
-                if isinstance(f, Field)
-                for p in selected_fields(
-                    f, fragments=fragments, variables=variables, maxdepth=None,
-                )
+            depth = _selections_depth(
+                op.selection_set.selections, fragments, variables
             )
-
-            depth = max(x.count("/") + 1 for x in paths)
 
             if depth > self.max_depth:
                 errors.append(
